@@ -53,6 +53,21 @@ func TestDbgPaths(t *testing.T) {
 				}
 				continue
 			}
+			if os.Getenv("DBG_FUNCLIT") != "" {
+				var fl *ast.FuncLit
+				ast.Inspect(fd.Body, func(n ast.Node) bool {
+					if x, ok := n.(*ast.FuncLit); ok && fl == nil {
+						fl = x
+					}
+					return true
+				})
+				ps, multi := newNctx(decls).without("addErr", "addErrAt").normBlockNamed(fd, fl.Body.List)
+				fmt.Println(multi)
+				for _, p := range ps {
+					fmt.Println(p.String())
+				}
+				continue
+			}
 			if os.Getenv("DBG_LOOP") != "" {
 				var lb *ast.BlockStmt
 				ast.Inspect(fd.Body, func(n ast.Node) bool {
